@@ -104,7 +104,7 @@ CHECKS = {
  'C18': dict(technique='NULL-check typestate for computed may-fail constructors (R-ALLOC-NULL) + linear ownership of PDUs with computed consumer summaries (R-OWN-PDU), alias-window typestate after shallow struct copies against computed destructor frees (R-SHALLOW-ALIAS), fresh-holder field ownership (R-HOLDER-LEAK), linear ownership of local strings/binaries/optlists/cache keys (R-OWN-LOCAL), dead-after-destructor typestate with computed destructors (R-USE-AFTER-DESTROY), reallocation commit rule (R-REALLOC-COMMIT)',
              text='Library-wide, every path: the result of every (computed) may-fail constructor is NULL-tested before any dereference or hand-over to a '
                   'dereferencing callee; every PDU created or received through a consuming parameter is released/handed on/stored exactly once, never used '
-                  'after release; the frozen consumer contracts (coap_send*, coap_session_delay_pdu, coap_send_q_block*) are checked against their own bodies; after a shallow struct copy no destructor that frees a still-aliased owned field runs before that field got its own buffer; a freshly allocated record is not freed raw while its fields hold objects created on that path; nothing is read through a local after the call that destroys what it points to; the result of a reallocation is not stored into the old pointer and the owner\'s fields are not changed ahead of a reallocation that can fail. '
+                  'after release; the frozen consumer contracts (coap_send*, coap_session_delay_pdu, coap_send_q_block*) are checked against their own bodies; after a shallow struct copy no destructor that frees a still-aliased owned field runs before that field got its own buffer; a freshly allocated record is not freed raw while its fields hold objects created on that path; nothing is read through a local after the call that destroys what it points to; the result of a reallocation is not stored into the old pointer and the owner\'s fields are not changed ahead of a reallocation that can fail; a function that takes over an object agrees over its failure returns on who owns it; no library function ends the process (six HASH_ADD sites whose out-of-memory arm is exit(-1) are known findings). '
                   'Necessary for surviving allocation failure without crash or leak; "the next operation succeeds" is not decided.',
              design='6 C18'),
  'C13': dict(technique='lock typestate {U,L,F} + in_callback counter over all paths and calling contexts (ESP-style property simulation), capability/mechanism configuration rule, owner typestate on the lock object\'s bookkeeping fields inside the lock primitives (R-LOCK-OWNER)',
